@@ -97,7 +97,10 @@ def _header_name_to_cgi(name):
 def _build_http_response(smtp_reply):
     code = smtp_reply.code
     headers = []
-    info = {'message': smtp_reply.message}
+    # A header value is one line of latin-1 text.
+    message = ' '.join((smtp_reply.message or '').splitlines())
+    message = message.encode('latin-1', 'replace').decode('latin-1')
+    info = {'message': message}
     if smtp_reply.command:
         command = smtp_reply.command
         if isinstance(command, bytes):  # e.g. replies of an SMTP relay
